@@ -298,7 +298,8 @@ theorem rinv_closed (hwf : cfg.states.WF = true) (hR : NoRaise sc) (hC : NoCmds 
     | oof => simp [hr, Res.state?] at h
     | ok r =>
       simp only [hr] at h
-      obtain ⟨s1, h1, c1, g1⟩ := exitAll_ok sub sc cfg hR hC x r.exits { s with glog := s.glog ++ [.exec tr] }
+      obtain ⟨s1, h1, c1, g1⟩ := exitAll_ok sub sc cfg hR hC x r.exits
+        { s with glog := s.glog ++ [.exec tr], exited := s.exited ++ r.exitNames }
       obtain ⟨s2, h2, c2, g2⟩ := enterAll_ok sub sc cfg hR hC x r.enters { s1 with conf := r.tree }
       simp only [h1, Res.bind, h2, Res.state?, Option.some.injEq] at h
       subst h
